@@ -1,4 +1,5 @@
 import ParryModel.C04.Lemmas3
+import ParryModel.C04.Model2D
 import ParryModel.C04.Theorems2
 /-!
 # C04 property theorems, part 3
@@ -226,6 +227,358 @@ theorem gjk_wrapper_nonsolid_exit {Sx : Type} (hs : LawfulSqrt sq) (S : V3 K →
             linarith
         · simp
     · simp
+
+/-! ## B. The 2-D crate: ball, Aabb / cuboid, triangle
+
+`ray_ball.rs`, `ray_aabb.rs`, `ray_cuboid.rs` are dimension-generic: the 2-D functions are proved EQUAL to the 3-D model
+on the embedded problem (`z = 0`; the third slab iteration is the pass-through branch `dir[2] == 0`), so every 3-D theorem
+transfers; the transferred statements are given for the clauses "first hit" (solid / origin outside) and "exit" (non-solid
+from inside).  The 2-D triangle cast (a body of its own in `ray_triangle.rs`) is reduced to the three edge casts. -/
+
+/-- embedding of the plane `z = 0` -/
+def emb3 (v : V2 K) : V3 K := ⟨v.x, v.y, 0⟩
+def embRay (r : Ray2 K) : Ray3 K := ⟨emb3 r.o, emb3 r.d⟩
+def embAabb (b : RcAabb2 K) : Aabb K := ⟨emb3 b.mins, emb3 b.maxs⟩
+/-- the rectangle -/
+def Aabb2Mem (b : RcAabb2 K) (p : V2 K) : Prop :=
+  (b.mins.x ≤ p.x ∧ p.x ≤ b.maxs.x) ∧ (b.mins.y ≤ p.y ∧ p.y ≤ b.maxs.y)
+
+/-- transfer of `FirstHit` along a pointwise equivalence of the membership along the curve -/
+theorem firstHit_congr {α β : Type} (S : α → Prop) (S' : β → Prop) (pt : K → α) (pt' : K → β) (max : K)
+    (h : ∀ s, S (pt s) ↔ S' (pt' s)) (r : Option K) : FirstHit S pt max r → FirstHit S' pt' max r := by
+  cases r with
+  | none => exact fun hn s a b hs => hn s a b ((h s).2 hs)
+  | some t => exact fun ⟨a, b, c, d⟩ => ⟨a, b, (h t).1 c, fun s x y hs => d s x y ((h s).2 hs)⟩
+
+private theorem slabStep_zero (st : K × K) :
+    letI := fieldNum K sq
+    slabStep (0 : K) 0 0 0 st = some st := by
+  simp [slabStep, neq]
+
+/-- **2-D `Aabb::cast_local_ray` = the 3-D function on the embedded problem** -/
+theorem aabb2_cast_eq_embed (big : K) (b : RcAabb2 K) (ray : Ray2 K) (max : K) (solid : Bool) :
+    letI := fieldNum K sq
+    b.castLocalRay big ray max solid = (embAabb b).castLocalRay big (embRay ray) max solid := by
+  simp only [RcAabb2.castLocalRay, Aabb.castLocalRay, embAabb, embRay, emb3]
+  rcases @slabStep K (fieldNum K sq) b.mins.x b.maxs.x ray.o.x ray.d.x (0, big) with _ | s0
+  · rfl
+  · simp only
+    rcases @slabStep K (fieldNum K sq) b.mins.y b.maxs.y ray.o.y ray.d.y s0 with _ | s1
+    · rfl
+    · simp only [slabStep_zero sq s1]
+
+private theorem aabbMem_emb (b : RcAabb2 K) (ray : Ray2 K) (s : K) :
+    AabbMem (embAabb b) (rayPt sq (embRay ray) s) ↔ Aabb2Mem b (rayPt2 sq ray s) := by
+  simp only [AabbMem, Aabb2Mem, embAabb, embRay, emb3, rayPt, rayPt2, Ray3.pointAt, Ray2.pointAt, V3.add, V3.smul,
+    V2.add, V2.smul, zero_mul, add_zero, le_refl, and_true]
+
+/-- **`Aabb::cast_local_ray` (2-D), `solid = true`**: first parameter of `[0, max_toi]` in the rectangle, `None` iff the
+segment misses it; any direction (zero components allowed), `0 ≤ max_toi ≤ Real::MAX`. -/
+theorem aabb2_cast_solid_firstHit (big : K) (b : RcAabb2 K) (ray : Ray2 K) (max : K)
+    (hv : b.mins.x ≤ b.maxs.x ∧ b.mins.y ≤ b.maxs.y) (hmax0 : 0 ≤ max) (hmaxb : max ≤ big) :
+    letI := fieldNum K sq
+    FirstHit (Aabb2Mem b) (rayPt2 sq ray) max (b.castLocalRay big ray max true) := by
+  rw [aabb2_cast_eq_embed]
+  exact firstHit_congr _ _ _ _ max (aabbMem_emb sq b ray) _
+    (aabb_cast_solid_firstHit sq big (embAabb b) (embRay ray) max ⟨hv.1, hv.2, le_refl _⟩ hmax0 hmaxb)
+
+/-- **`Aabb::cast_local_ray` (2-D), origin outside (both `solid` flags)**: first hit, and a reported time is `> 0`. -/
+theorem aabb2_cast_outside_firstHit (big : K) (b : RcAabb2 K) (ray : Ray2 K) (max : K) (solid : Bool)
+    (hv : b.mins.x ≤ b.maxs.x ∧ b.mins.y ≤ b.maxs.y) (hmax0 : 0 ≤ max) (hmaxb : max ≤ big) :
+    letI := fieldNum K sq
+    ¬ Aabb2Mem b ray.o →
+    FirstHit (Aabb2Mem b) (rayPt2 sq ray) max (b.castLocalRay big ray max solid) ∧
+    ∀ t, b.castLocalRay big ray max solid = some t → 0 < t := by
+  intro hout
+  rw [aabb2_cast_eq_embed]
+  have hout' : ¬ AabbMem (embAabb b) (embRay ray).o := by
+    intro h; apply hout
+    simpa only [AabbMem, Aabb2Mem, embAabb, embRay, emb3, le_refl, and_true] using h
+  obtain ⟨h1, h2⟩ := aabb_cast_outside_firstHit sq big (embAabb b) (embRay ray) max solid ⟨hv.1, hv.2, le_refl _⟩
+    hmax0 hmaxb hout'
+  exact ⟨firstHit_congr _ _ _ _ max (aabbMem_emb sq b ray) _ h1, fun t ht => (h2 t ht).1⟩
+
+/-- **`Aabb::cast_local_ray` (2-D), `solid = false`, origin in the rectangle**: a reported time is the exit parameter
+(`≤ max_toi`, `[0,t]` inside, nothing of `(t, Real::MAX]` inside); `None` ⇒ the whole segment stays inside. -/
+theorem aabb2_cast_nonsolid_inside (big : K) (b : RcAabb2 K) (ray : Ray2 K) (max : K)
+    (hv : b.mins.x ≤ b.maxs.x ∧ b.mins.y ≤ b.maxs.y) (hmax0 : 0 ≤ max) (hmaxb : max ≤ big) :
+    letI := fieldNum K sq
+    Aabb2Mem b ray.o →
+    match b.castLocalRay big ray max false with
+    | some t => t ≤ max ∧ (∀ s, 0 ≤ s → s ≤ t → Aabb2Mem b (rayPt2 sq ray s)) ∧
+        (∀ s, t < s → s ≤ big → ¬ Aabb2Mem b (rayPt2 sq ray s))
+    | none => ∀ s, 0 ≤ s → s ≤ max → Aabb2Mem b (rayPt2 sq ray s) := by
+  intro hin
+  rw [aabb2_cast_eq_embed]
+  have hin' : AabbMem (embAabb b) (embRay ray).o := by
+    simpa only [AabbMem, Aabb2Mem, embAabb, embRay, emb3, le_refl, and_true] using hin
+  have h := aabb_cast_nonsolid_inside sq big (embAabb b) (embRay ray) max ⟨hv.1, hv.2, le_refl _⟩ hmax0 hmaxb hin'
+  revert h
+  rcases @Aabb.castLocalRay K (fieldNum K sq) big (embAabb b) (embRay ray) max false with _ | t
+  · exact fun h s a c => (aabbMem_emb sq b ray s).1 (h s a c)
+  · exact fun ⟨h1, _, _, h4, h5⟩ => ⟨h1, fun s a c => (aabbMem_emb sq b ray s).1 (h4 s a c),
+      fun s a c hm => h5 s a c ((aabbMem_emb sq b ray s).2 hm)⟩
+
+/-- **`Cuboid::cast_local_ray` (2-D), solid**: first hit of `{p | |p_i| ≤ he_i}` (`Cuboid2.Mem`). -/
+theorem cuboid2_cast_solid_firstHit (big : K) (s : Cuboid2 K) (ray : Ray2 K) (max : K)
+    (hhe : 0 ≤ s.he.x ∧ 0 ≤ s.he.y) (hmax0 : 0 ≤ max) (hmaxb : max ≤ big) :
+    letI := fieldNum K sq
+    FirstHit s.Mem (rayPt2 sq ray) max (s.castLocalRay big ray max true) := by
+  have hv : (-s.he.x ≤ s.he.x) ∧ (-s.he.y ≤ s.he.y) := ⟨by linarith [hhe.1], by linarith [hhe.2]⟩
+  exact aabb2_cast_solid_firstHit sq big ⟨@V2.neg K (fieldNum K sq) s.he, s.he⟩ ray max hv hmax0 hmaxb
+
+/-- **2-D `ray_toi_with_ball` = the 3-D function on the embedded problem** -/
+theorem ball2_toi_eq_embed (c : V2 K) (r : K) (ray : Ray2 K) (solid : Bool) :
+    letI := fieldNum K sq
+    rayToiWithBall2 c r ray solid = rayToiWithBall (emb3 c) r (embRay ray) solid := by
+  simp only [rayToiWithBall2, rayToiWithBall, embRay, emb3, V2.sub, V3.sub, V2.normSq, V3.normSq, V2.dot, V3.dot,
+    sub_self, mul_zero, add_zero]
+  rfl
+
+private theorem ballMem_emb (b : Ball K) (ray : Ray2 K) (s : K) :
+    letI := fieldNum K sq
+    b.Mem3 (rayPt sq (embRay ray) s) ↔ b.Mem2 (rayPt2 sq ray s) := by
+  simp only [Ball.Mem3, Ball.Mem2, embRay, emb3, rayPt, rayPt2, Ray3.pointAt, Ray2.pointAt, V3.add, V3.smul,
+    V2.add, V2.smul, V3.normSq, V2.normSq, V3.dot, V2.dot, zero_mul, add_zero, mul_zero]
+
+private theorem ball2_cast_eq_embed (b : Ball K) (ray : Ray2 K) (max : K) (solid : Bool) :
+    letI := fieldNum K sq
+    b.castLocalRay2 ray max solid = b.castLocalRay (embRay ray) max solid := by
+  simp only [Ball.castLocalRay2, Ball.castLocalRay]
+  rw [ball2_toi_eq_embed]
+  rfl
+
+private theorem normSq_emb (ray : Ray2 K) :
+    letI := fieldNum K sq
+    (embRay ray).d.normSq = ray.d.normSq := by
+  simp only [embRay, emb3, V3.normSq, V2.normSq, V3.dot, V2.dot, mul_zero, add_zero]
+
+/-- **`Ball::cast_local_ray` (2-D), solid**: for every non-zero direction of any length the result is the first hit of the
+disc on `[0, max_toi]`; `None` ⇒ the segment misses the disc. -/
+theorem ball2_cast_solid_firstHit (hs : LawfulSqrt sq) (b : Ball K) (ray : Ray2 K) (max : K) :
+    letI := fieldNum K sq
+    0 < ray.d.normSq →
+    FirstHit b.Mem2 (rayPt2 sq ray) max (b.castLocalRay2 ray max true) := by
+  intro ha
+  rw [ball2_cast_eq_embed]
+  exact firstHit_congr _ _ _ _ max (ballMem_emb sq b ray) _
+    (ball_cast_solid_firstHit sq hs b (embRay ray) max (by rw [normSq_emb]; exact ha))
+
+/-- **`Ball::cast_local_ray` (2-D), origin outside the disc (both `solid` flags)**: first hit; a reported time is `> 0`. -/
+theorem ball2_cast_outside_firstHit (hs : LawfulSqrt sq) (b : Ball K) (ray : Ray2 K) (max : K) (solid : Bool) :
+    letI := fieldNum K sq
+    0 < ray.d.normSq → ¬ b.Mem2 ray.o →
+    FirstHit b.Mem2 (rayPt2 sq ray) max (b.castLocalRay2 ray max solid) ∧
+    ∀ t, b.castLocalRay2 ray max solid = some t → 0 < t := by
+  intro ha hout
+  rw [ball2_cast_eq_embed]
+  have hout' : ¬ @Ball.Mem3 K (fieldNum K sq) b (embRay ray).o := by
+    intro h; apply hout
+    simpa only [Ball.Mem3, Ball.Mem2, embRay, emb3, V3.normSq, V2.normSq, V3.dot, V2.dot, mul_zero, add_zero] using h
+  obtain ⟨h1, h2⟩ := ball_cast_outside_firstHit sq hs b (embRay ray) max solid (by rw [normSq_emb]; exact ha) hout'
+  exact ⟨firstHit_congr _ _ _ _ max (ballMem_emb sq b ray) _ h1, fun t ht => (h2 t ht).1⟩
+
+/-- **`Ball::cast_local_ray` (2-D), `solid = false`, origin in the disc**: a reported time is `≤ max_toi` and is the exit
+parameter (`ExitHit`: `[0,t]` in the disc, everything later outside); `None` ⇒ the whole segment stays in the disc. -/
+theorem ball2_cast_nonsolid_inside (hs : LawfulSqrt sq) (b : Ball K) (ray : Ray2 K) (max : K) :
+    letI := fieldNum K sq
+    0 < ray.d.normSq → b.Mem2 ray.o →
+    match b.castLocalRay2 ray max false with
+    | some t => t ≤ max ∧ ExitHit b.Mem2 (rayPt2 sq ray) t
+    | none => ∀ u, 0 ≤ u → u ≤ max → b.Mem2 (rayPt2 sq ray u) := by
+  intro ha hin
+  rw [ball2_cast_eq_embed]
+  have hin' : @Ball.Mem3 K (fieldNum K sq) b (embRay ray).o := by
+    simpa only [Ball.Mem3, Ball.Mem2, embRay, emb3, V3.normSq, V2.normSq, V3.dot, V2.dot, mul_zero, add_zero] using hin
+  have h := ball_cast_nonsolid_inside sq hs b (embRay ray) max (by rw [normSq_emb]; exact ha) hin'
+  revert h
+  rcases @Ball.castLocalRay K (fieldNum K sq) b (embRay ray) max false with _ | t
+  · exact fun h u a c => (ballMem_emb sq b ray u).1 (h.1 u a c)
+  · intro ⟨h1, _, h3⟩
+    refine ⟨h1, ?_⟩
+    revert h3
+    simp only [ExitHit]
+    intro ⟨a, c, d⟩
+    exact ⟨a, fun u x y => (ballMem_emb sq b ray u).1 (c u x y), fun u x hm => d u x ((ballMem_emb sq b ray u).2 hm)⟩
+
+/-! ### Triangle (2-D) -/
+
+/-- twice the signed area of the triangle -/
+def tri2Area (s : Triangle2 K) : K := (s.b.x - s.a.x) * (s.c.y - s.a.y) - (s.b.y - s.a.y) * (s.c.x - s.a.x)
+
+/-- **Triangle (2-D) cast, `solid = true` with the origin passing the orientation test**: `Some(toi = 0)`
+(normal `Vector::y()`, `Face(0)`). -/
+theorem tri2_cast_solid_inside (big : K) (s : Triangle2 K) (ray : Ray2 K) (max : K) :
+    letI := fieldNum K sq
+    letI := fieldUlps K
+    s.originInsideTest ray.o = true →
+    s.castLocalRayAndGetNormal big ray max true = some { toi := 0, n := ⟨0, 1⟩, fkind := 0, fidx := 0 } := by
+  intro h
+  simp only [Triangle2.castLocalRayAndGetNormal, h, Bool.and_self, if_true]
+
+/-- **The `solid` orientation test is sound**: for a non-degenerate triangle of either orientation, if the three `perp`
+signs agree then the origin belongs to the (closed) triangle — `Triangle2.Mem`, barycentric form. -/
+theorem tri2_insideTest_sound (s : Triangle2 K) (o : V2 K) (hA : tri2Area s ≠ 0) :
+    letI := fieldNum K sq
+    s.originInsideTest o = true → s.Mem o := by
+  obtain ⟨⟨ax, ay⟩, ⟨bx, b_y⟩, ⟨cx, cy⟩⟩ := s
+  obtain ⟨ox, oy⟩ := o
+  simp only [tri2Area] at hA
+  simp only [Triangle2.originInsideTest, Triangle2.Mem, V2.perp, V2.sub, V2.add, V2.smul, Bool.and_eq_true, beq_iff_eq,
+    decide_eq_decide, V2.mk.injEq]
+  intro ⟨h12, h13⟩
+  replace h12 := decide_eq_decide.1 h12
+  replace h13 := decide_eq_decide.1 h13
+  set A := (bx - ax) * (cy - ay) - (b_y - ay) * (cx - ax) with hAdef
+  set p1 := (bx - ax) * (oy - ay) - (b_y - ay) * (ox - ax) with hp1
+  set p2 := (cx - bx) * (oy - b_y) - (cy - b_y) * (ox - bx) with hp2
+  set p3 := (ax - cx) * (oy - cy) - (ay - cy) * (ox - cx) with hp3
+  have hsum : p1 + p2 + p3 = A := by simp only [hp1, hp2, hp3, hAdef]; ring
+  refine ⟨p3 / A, p1 / A, ?_, ?_, ?_, ?_, ?_⟩
+  · by_cases h : 0 < p1
+    · have h2 := h12.1 h; have h3 := h13.1 h
+      exact div_nonneg h3.le (by linarith)
+    · have h2 : ¬ 0 < p2 := fun x => h (h12.2 x); have h3 : ¬ 0 < p3 := fun x => h (h13.2 x)
+      push Not at h h2 h3
+      exact div_nonneg_of_nonpos h3 (by linarith)
+  · by_cases h : 0 < p1
+    · have h2 := h12.1 h; have h3 := h13.1 h
+      exact div_nonneg h.le (by linarith)
+    · have h2 : ¬ 0 < p2 := fun x => h (h12.2 x); have h3 : ¬ 0 < p3 := fun x => h (h13.2 x)
+      push Not at h h2 h3
+      exact div_nonneg_of_nonpos h (by linarith)
+  · have : p3 / A + p1 / A = 1 - p2 / A := by field_simp; linarith
+    rw [this]
+    have : 0 ≤ p2 / A := by
+      by_cases h : 0 < p1
+      · have h2 := h12.1 h; have h3 := h13.1 h
+        exact div_nonneg h2.le (by linarith)
+      · have h2 : ¬ 0 < p2 := fun x => h (h12.2 x); have h3 : ¬ 0 < p3 := fun x => h (h13.2 x)
+        push Not at h h2 h3
+        exact div_nonneg_of_nonpos h2 (by linarith)
+    linarith
+  · field_simp
+    simp only [hp1, hp3, hAdef]; ring
+  · field_simp
+    simp only [hp1, hp3, hAdef]; ring
+
+/-- **The orientation test is complete on the interior**: a point with strictly positive barycentric coordinates passes
+the test (either orientation), so a `solid` cast from strictly inside reports `toi = 0`. -/
+theorem tri2_insideTest_complete (s : Triangle2 K) (u v : K) (hA : tri2Area s ≠ 0) (hu : 0 < u) (hv : 0 < v)
+    (huv : u + v < 1) :
+    letI := fieldNum K sq
+    s.originInsideTest ((s.a.add ((s.b.sub s.a).smul u)).add ((s.c.sub s.a).smul v)) = true := by
+  obtain ⟨⟨ax, ay⟩, ⟨bx, b_y⟩, ⟨cx, cy⟩⟩ := s
+  simp only [tri2Area] at hA
+  simp only [Triangle2.originInsideTest, V2.perp, V2.sub, V2.add, V2.smul, Bool.and_eq_true, beq_iff_eq, decide_eq_decide]
+  set A := (bx - ax) * (cy - ay) - (b_y - ay) * (cx - ax) with hAdef
+  have e1 : (bx - ax) * (ay + (b_y - ay) * u + (cy - ay) * v - ay) - (b_y - ay) * (ax + (bx - ax) * u + (cx - ax) * v - ax)
+      = v * A := by simp only [hAdef]; ring
+  have e2 : (cx - bx) * (ay + (b_y - ay) * u + (cy - ay) * v - b_y) - (cy - b_y) * (ax + (bx - ax) * u + (cx - ax) * v - bx)
+      = (1 - u - v) * A := by simp only [hAdef]; ring
+  have e3 : (ax - cx) * (ay + (b_y - ay) * u + (cy - ay) * v - cy) - (ay - cy) * (ax + (bx - ax) * u + (cx - ax) * v - cx)
+      = u * A := by simp only [hAdef]; ring
+  simp only [e1, e2, e3]
+  have hw : 0 < 1 - u - v := by linarith
+  rcases lt_or_gt_of_ne hA with hneg | hpos
+  · have n1 : ¬ 0 < v * A := not_lt.2 (mul_nonpos_of_nonneg_of_nonpos hv.le hneg.le)
+    have n2 : ¬ 0 < (1 - u - v) * A := not_lt.2 (mul_nonpos_of_nonneg_of_nonpos hw.le hneg.le)
+    have n3 : ¬ 0 < u * A := not_lt.2 (mul_nonpos_of_nonneg_of_nonpos hu.le hneg.le)
+    exact ⟨decide_eq_decide.2 ⟨fun h => absurd h n1, fun h => absurd h n2⟩,
+      decide_eq_decide.2 ⟨fun h => absurd h n1, fun h => absurd h n3⟩⟩
+  · have n1 : 0 < v * A := mul_pos hv hpos
+    have n2 : 0 < (1 - u - v) * A := mul_pos hw hpos
+    have n3 : 0 < u * A := mul_pos hu hpos
+    exact ⟨decide_eq_decide.2 ⟨fun _ => n2, fun _ => n1⟩, decide_eq_decide.2 ⟨fun _ => n3, fun _ => n1⟩⟩
+
+/-- invariant of the `for edge in &edges` loop over the edge results seen so far -/
+private def FoldOK (big : K) (L : List (Hit2 K)) (acc : Option (Hit2 K) × K) : Prop :=
+  match acc.1 with
+  | none => acc.2 = big ∧ ∀ h ∈ L, big ≤ h.toi
+  | some h => acc.2 = h.toi ∧ h ∈ L ∧ h.toi < big ∧ ∀ h' ∈ L, h.toi ≤ h'.toi
+
+private theorem foldOK_step (big : K) (L : List (Hit2 K)) (acc : Option (Hit2 K) × K) (inter : Option (Hit2 K))
+    (h : FoldOK big L acc) :
+    letI := fieldNum K sq
+    FoldOK big (L ++ inter.toList) (tri2Fold acc inter) := by
+  obtain ⟨a, m⟩ := acc
+  cases inter with
+  | none => simpa [tri2Fold] using h
+  | some x =>
+    simp only [tri2Fold, Option.toList_some]
+    cases a with
+    | none =>
+      simp only [FoldOK] at h
+      obtain ⟨hm, hall⟩ := h
+      subst hm
+      split_ifs with hlt
+      · refine ⟨rfl, by simp, hlt, ?_⟩
+        intro h' hm
+        rcases List.mem_append.1 hm with hm | hm
+        · exact le_trans hlt.le (hall _ hm)
+        · simp only [List.mem_singleton] at hm; rw [hm]
+      · refine ⟨rfl, ?_⟩
+        intro h' hm
+        rcases List.mem_append.1 hm with hm | hm
+        · exact hall _ hm
+        · simp only [List.mem_singleton] at hm; rw [hm]; exact not_lt.1 hlt
+    | some y =>
+      simp only [FoldOK] at h
+      obtain ⟨hm, hin, hyb, hall⟩ := h
+      subst hm
+      split_ifs with hlt
+      · refine ⟨rfl, by simp, lt_trans hlt hyb, ?_⟩
+        intro h' hm
+        rcases List.mem_append.1 hm with hm | hm
+        · exact le_trans hlt.le (hall _ hm)
+        · simp only [List.mem_singleton] at hm; rw [hm]
+      · refine ⟨rfl, List.mem_append_left _ hin, hyb, ?_⟩
+        intro h' hm
+        rcases List.mem_append.1 hm with hm | hm
+        · exact hall _ hm
+        · simp only [List.mem_singleton] at hm; rw [hm]; exact not_lt.1 hlt
+
+/-- **Triangle (2-D) cast = the nearest of the three edge casts** (every case that does not take the `solid` shortcut):
+a reported hit is the result of one of the edge casts `ab`, `bc`, `ca` (`Segment::cast_local_ray_and_get_normal`, to which
+the segment theorems of `Theorems1.lean` apply: point on the edge, unit perpendicular normal facing the ray), its time is
+below `Real::MAX` and no edge cast reports a smaller time; `None` ⇒ no edge cast reports a time below `Real::MAX`. -/
+theorem tri2_cast_best_of_edges (big : K) (s : Triangle2 K) (ray : Ray2 K) (max : K) (solid : Bool) :
+    letI := fieldNum K sq
+    letI := fieldUlps K
+    (solid && s.originInsideTest ray.o) = false →
+    let e0 := (Segment2.mk s.a s.b).castLocalRayAndGetNormal ray max solid
+    let e1 := (Segment2.mk s.b s.c).castLocalRayAndGetNormal ray max solid
+    let e2 := (Segment2.mk s.c s.a).castLocalRayAndGetNormal ray max solid
+    match s.castLocalRayAndGetNormal big ray max solid with
+    | some h => (e0 = some h ∨ e1 = some h ∨ e2 = some h) ∧ h.toi < big ∧
+        ∀ h', (e0 = some h' ∨ e1 = some h' ∨ e2 = some h') → h.toi ≤ h'.toi
+    | none => ∀ h', (e0 = some h' ∨ e1 = some h' ∨ e2 = some h') → big ≤ h'.toi := by
+  intro hns
+  simp only [Triangle2.castLocalRayAndGetNormal, hns, Bool.false_eq_true, if_false]
+  generalize @Segment2.castLocalRayAndGetNormal K (fieldNum K sq) (fieldUlps K) ⟨s.a, s.b⟩ ray max solid = e0
+  generalize @Segment2.castLocalRayAndGetNormal K (fieldNum K sq) (fieldUlps K) ⟨s.b, s.c⟩ ray max solid = e1
+  generalize @Segment2.castLocalRayAndGetNormal K (fieldNum K sq) (fieldUlps K) ⟨s.c, s.a⟩ ray max solid = e2
+  have h0 : FoldOK big [] ((none : Option (Hit2 K)), big) := ⟨rfl, fun _ hm => by simp at hm⟩
+  have h3 := foldOK_step sq big _ _ e2 (foldOK_step sq big _ _ e1 (foldOK_step sq big _ _ e0 h0))
+  have hmem : ∀ h' : Hit2 K, h' ∈ ([] ++ e0.toList ++ e1.toList ++ e2.toList) ↔
+      (e0 = some h' ∨ e1 = some h' ∨ e2 = some h') := by
+    intro h'
+    simp only [List.nil_append, List.mem_append, Option.mem_toList, or_assoc, Option.mem_def]
+  revert h3
+  simp only [FoldOK]
+  rcases (@tri2Fold K (fieldNum K sq) (@tri2Fold K (fieldNum K sq) (@tri2Fold K (fieldNum K sq) (none, big) e0) e1) e2)
+    with ⟨_ | h, m⟩
+  · exact fun ⟨_, hall⟩ h' hm => hall h' ((hmem h').2 hm)
+  · exact fun ⟨_, hin, hlt, hall⟩ => ⟨(hmem h).1 hin, hlt, fun h' hm => hall h' ((hmem h').2 hm)⟩
+
+/-- non-vacuity of the 2-D triangle theorems: the triangle `(0,0),(2,0),(0,2)` is non-degenerate, the point `(1/2,1/2)` has
+strictly positive barycentric coordinates `u = v = 1/4` and passes the orientation test (over `ℚ`) -/
+example : tri2Area (K := ℚ) ⟨⟨0, 0⟩, ⟨2, 0⟩, ⟨0, 2⟩⟩ ≠ 0 := by norm_num [tri2Area]
+example : letI := fieldNum ℚ (fun x => x)
+    (Triangle2.mk ⟨0, 0⟩ ⟨2, 0⟩ ⟨0, 2⟩ : Triangle2 ℚ).originInsideTest ⟨1 / 2, 1 / 2⟩ = true := by
+  simp only [Triangle2.originInsideTest, V2.perp, V2.sub]; norm_num
+/-- non-vacuity of the 2-D box theorems: a valid rectangle and `0 ≤ max ≤ big` -/
+example : ((-1 : ℚ) ≤ 1 ∧ (-2 : ℚ) ≤ 2) ∧ (0 : ℚ) ≤ 5 ∧ (5 : ℚ) ≤ 1000 := by norm_num
 
 /-- non-vacuity: the support function of the cube `[-1,1]³` (`sign`-vertex) dominates the cube, over `ℚ` -/
 example : Supports (K := ℚ) (fun p => |p.x| ≤ 1 ∧ |p.y| ≤ 1 ∧ |p.z| ≤ 1)
